@@ -101,9 +101,9 @@ def run(tier):
         raise FrameworkError("vacuity gate: life-cycle actions never enabled in the model: %s" % sorted(need - set(acts)))
     ck.set("lifecycle_graph", {"states": len(g.ids), "edges": len(g.edges), "edges_per_action": acts})
     if tier == "quick":
-        n_hist, maxlen, sweep_ks, sweep_k2 = 10, 8, [0, 1, 2, 3, 5, 8, 13, 21, 34], ["k60"]
+        n_hist, maxlen, sweep_ks, sweep_k2 = 10, 8, list(range(0, 22)) + [25, 29, 34, 42, 55], ["k60"]
     else:
-        n_hist, maxlen, sweep_ks, sweep_k2 = 120, 10, list(range(0, 41)) + [50, 60, 80, 100, 150, 250, 400], ["k3", "k150", "inf"]
+        n_hist, maxlen, sweep_ks, sweep_k2 = 120, 10, list(range(0, 140)) + [150, 200, 250, 400], ["k3", "k150", "inf"]
     jobs = []
     jid = 0
     for p in planners:
@@ -112,7 +112,7 @@ def run(tier):
         kch = KNAMES if not (mt or slow) else ["k0", "k1", "k5", "k400", "inf", "inf"]
         hs = [random_history(out, rng, maxlen, kch) for _ in range(n_hist if not slow else max(3, n_hist // 3))]
         if not mt:  # the k-sweep needs a schedule-independent evaluation count
-            for k in (sweep_ks if not slow else sweep_ks[::3]):
+            for k in sweep_ks:   # small k are cheap for every planner (batch planners are interrupted while sampling)
                 hs.append(sweep_history(k, rng.choice(sweep_k2)))
         for h in hs:
             W, H, obst = rng.choice(MAPS)
